@@ -492,7 +492,8 @@ Theorem agrees_satisfies_proved t :
   agrees t = true -> covered constrains t = true -> satisfies t = true.
 Proof.
   intros Hbit HA HC. unfold agrees in HA.
-  apply andb_true_iff in HA. destruct HA as [HA Hcl]. apply andb_true_iff in HA. destruct HA as [HA Hwn].
+  apply andb_true_iff in HA. destruct HA as [HA Hcl]. apply andb_true_iff in HA. destruct HA as [HA _].
+  apply andb_true_iff in HA. destruct HA as [HA Hwn].
   apply andb_true_iff in HA. destruct HA as [HA Hwo]. apply andb_true_iff in HA. destruct HA as [He _]. apply errs_eqb_eq in He.
   unfold satisfies, covered in *. destruct (t_claim t) as [| |q|q|q|q|q]; cbn [claim_holds] in Hcl.
   - reflexivity.
